@@ -244,6 +244,15 @@ func c20Family(t *vk.T, fam string, rep int, env vk.Env) {
 						case "threshold=-1":
 							c = fx.CloneTaproot(tm.Cfgs[ids[0]])
 							c.Threshold = -1
+						case "nil-own-table-entry":
+							c = fx.CloneTaproot(tm.Cfgs[ids[0]])
+							c.VerificationShares[ids[0]] = nil
+						case "nil-peer-table-entry":
+							c = fx.CloneTaproot(tm.Cfgs[ids[0]])
+							c.VerificationShares[ids[1]] = nil
+						case "peer-table-entry-missing":
+							c = fx.CloneTaproot(tm.Cfgs[ids[0]])
+							delete(c.VerificationShares, ids[1])
 						}
 						return frost.SignTaproot(c, ids[:2], msg)
 					}
@@ -267,10 +276,19 @@ func c20Family(t *vk.T, fam string, rep int, env vk.Env) {
 					case "threshold=-1":
 						c = fx.CloneFrost(fm.Cfgs[ids[0]])
 						c.Threshold = -1
+					case "nil-own-table-entry":
+						c = fx.CloneFrost(fm.Cfgs[ids[0]])
+						c.VerificationShares.Points[ids[0]] = nil
+					case "nil-peer-table-entry":
+						c = fx.CloneFrost(fm.Cfgs[ids[0]])
+						c.VerificationShares.Points[ids[1]] = nil
+					case "peer-table-entry-missing":
+						c = fx.CloneFrost(fm.Cfgs[ids[0]])
+						delete(c.VerificationShares.Points, ids[1])
 					}
 					return frost.Sign(c, ids[:2], msg)
 				}
-				for _, kind := range []string{"nil", "zero-object", "nil-share", "nil-table", "empty-public-key", "threshold=n", "threshold=-1"} {
+				for _, kind := range []string{"nil", "zero-object", "nil-share", "nil-table", "empty-public-key", "threshold=n", "threshold=-1", "nil-own-table-entry", "nil-peer-table-entry", "peer-table-entry-missing"} {
 					kind := kind
 					sc := &c20Scenario{fn: fn, param: "key-material", value: kind, expectKey: k, msg: msg, ids: ids[:2], subjects: subj(ids[0]), start: map[party.ID]protocol.StartFunc{}}
 					sc.start[ids[1]] = sg(ids[1], ids[:2], msg)
@@ -516,6 +534,21 @@ func c20Family(t *vk.T, fam string, rep int, env vk.Env) {
 			c = fx.CloneCMP(cm.Cfgs[ids[0]])
 			c.Group = nil
 			m["nil-group"] = c
+			c = fx.CloneCMP(cm.Cfgs[ids[0]])
+			c.Public[ids[1]] = nil
+			m["nil-peer-table-entry"] = c
+			c = fx.CloneCMP(cm.Cfgs[ids[0]])
+			c.Public[ids[0]] = nil
+			m["nil-own-table-entry"] = c
+			c = fx.CloneCMP(cm.Cfgs[ids[0]])
+			c.Public[ids[1]].Paillier = nil
+			m["peer-entry-without-paillier-key"] = c
+			c = fx.CloneCMP(cm.Cfgs[ids[0]])
+			c.Public[ids[1]].ECDSA = nil
+			m["peer-entry-without-ecdsa-share"] = c
+			c = fx.CloneCMP(cm.Cfgs[ids[0]])
+			delete(c.Public, ids[1])
+			m["peer-table-entry-missing"] = c
 			return m
 		}
 		signerSets := []struct {
@@ -659,6 +692,9 @@ func c20Family(t *vk.T, fam string, rep int, env vk.Env) {
 		case "cmp-refresh":
 			for name, c := range badCfgs() {
 				name, c := name, c
+				if name == "peer-table-entry-missing" {
+					continue // a config without one peer is a self-consistent smaller sharing: refresh takes its participants from it
+				}
 				sf := guard("cmp.Refresh", "key-material="+name, func() protocol.StartFunc { return cmp.Refresh(c, nil) })
 				if sf == nil {
 					continue
